@@ -1,76 +1,409 @@
-"""C12 helper -- card grid rule (temporary: old text form)"""
+"""C12-R3 -- card grid, decided on values.
+
+The writers are evaluated on *symbolic cards* (a name and n fields of given types, n around the line breaks): whatever the code looks like
+(write-as-you-go loop, nested ifs, buffer-and-join) the result is an abstract text whose lines are parsed on the reference grid of the
+property (8-column head, W-wide fields, 72 columns).  The generic readers are then evaluated on that very text (`_rdfixed`) and on the
+comma form of the same card (`_rdcomma`) and must give back the fields, one for one.
+"""
 from __future__ import annotations
+
 import ast
-from .core import AnchorError
-from .e1_srcmodel import parent, utext
+from fractions import Fraction
+
+from .core import AnchorError, Unsupported
+from .e1_srcmodel import dotted
+from .c12_str import Unk, Const, Param, Opaque, Lit, Fmt, Cat, Strip, Slice, StrOf, CallS, Tup, Len, cat, as_int, is_str, is_num
+from .c12_exec import Engine, Interval, State, walk_value
+from .c12_text import (FIELD, is_field, field_of, atoms, width, all_blank, rstrip, slice_text, first_char, split_lines, split_commas,
+                       parse_fixed, FLOATW, BLANKS)
+
 BULK = "pyyeti/nastran/bulk.py"
+TYPES = {"str": "str", "np.str_": "str", "int": "int", "np.int32": "int", "np.int64": "int", "np.uint32": "int", "np.uint64": "int",
+         "np.integer": "int", "float": "float", "np.float32": "float", "np.float64": "float", "np.floating": "float"}
+BLANK = Opaque("blank-value", ())
+
+
+def _type_classes(v):
+    out = set()
+    for n in walk_value(v):
+        if isinstance(n, Opaque) and n.name.startswith("name:"):
+            c = TYPES.get(n.name[5:])
+            if c is None:
+                return None
+            out.add(c)
+    return out
+
+
+def _field_cond(test, st, eng):
+    """type regime of a symbolic field: isinstance(field, types), field == '' """
+    if isinstance(test, ast.Call) and dotted(test.func) == "isinstance" and len(test.args) == 2:
+        x = eng.ev(test.args[0], st)
+        if is_field(x):
+            cl = _type_classes(eng.ev(test.args[1], st))
+            if cl is None:
+                return None
+            t = x.args[1].s
+            return ("str" if t == "blank" else t) in cl
+    if isinstance(test, ast.Compare) and len(test.ops) == 1 and isinstance(test.ops[0], (ast.Eq, ast.NotEq)):
+        a, b = eng.ev(test.left, st), eng.ev(test.comparators[0], st)
+        if is_field(b):
+            a, b = b, a
+        if is_field(a) and b == Lit(""):
+            return (a.args[1].s == "blank") == isinstance(test.ops[0], ast.Eq)
+        if is_field(a) and isinstance(b, Lit):
+            return isinstance(test.ops[0], ast.NotEq)
+    # truth of stripped text
+    v = None
+    if isinstance(test, (ast.Call, ast.Name, ast.Attribute, ast.Subscript)):
+        v = eng.ev(test, st)
+    if isinstance(v, Strip) and v.chars is None:
+        b = all_blank(v.s)
+        if b is not None:
+            return not b
+    if v is not None and is_str(v) and not isinstance(v, Lit):
+        w = width(v)
+        if w:
+            return True
+    return None
+
+
+def _text_post(v, st, eng):
+    """strip / slice / len of card text computed on its atoms"""
+    if isinstance(v, Strip) and v.chars is None and v.side == "r" and atoms(v.s) is not None:
+        return rstrip(v.s)
+    if isinstance(v, Strip) and v.chars is None and v.side == "b" and all_blank(v.s) is True:
+        return Lit("")
+    if isinstance(v, Slice) and atoms(v.s) is not None:
+        lo = None if v.lo is None else as_int(v.lo)
+        hi = None if v.hi is None else as_int(v.hi)
+        if (v.lo is None or lo is not None) and (v.hi is None or hi is not None):
+            return slice_text(v.s, lo, hi)
+    if isinstance(v, Len):
+        w = width(v.s)
+        if w is not None:
+            return Fraction(w)
+    return v
+
+
+def symbolic_card(name, shape):
+    return Tup((Lit(name),) + tuple(FIELD(i, t) for i, t in enumerate(shape)))
+
+
+def run_writer(ctx, q, name, shape, formatter=None):
+    """-> abstract text written for the card, or raises Unsupported"""
+    fn = ctx.src.func(BULK, q)
+    params = [a.arg for a in fn.args.args]
+    if len(params) < 2:
+        raise AnchorError(f"{q}: parameters")
+    env = {params[0]: Opaque("file", ()), params[1]: symbolic_card(name, shape)}
+    if formatter is not None:
+        if len(params) < 3:
+            raise AnchorError(f"{q}: formatter parameter")
+        env[params[2]] = Opaque("name:" + formatter, ())
+    eng = Engine(ctx, BULK, fn, cond=_field_cond, env=env, post=_text_post)
+    leaves = eng.run()
+    if len(leaves) != 1 or leaves[0].state.facts or leaves[0].kind not in ("fall", "return"):
+        raise Unsupported(f"{q}: {len(leaves)} paths for one card ({[lf.kind for lf in leaves][:4]}, "
+                          f"undecided: {[f[0] for lf in leaves for f in lf.state.facts][:3]})")
+    out = []
+    for nm, args, kw, node in leaves[0].state.effects:
+        if nm == params[0] + ".write" and args and len(args) == 1:
+            out.append(args[0])
+        elif nm == params[0] + ".writelines" and args and isinstance(args[0], Tup):
+            out.extend(args[0].items)
+    if any(not is_str(o) for o in out):
+        raise Unsupported(f"{q}: written text is not modelled ({[type(o).__name__ for o in out if not is_str(o)][:3]})")
+    return cat(*out)
+
+
+def expected_slots(shape):
+    return [("blank" if t == "blank" else FIELD(i, t)) for i, t in enumerate(shape)]
+
+
+def trim(seq, blank):
+    seq = list(seq)
+    while seq and seq[-1] == blank:
+        seq.pop()
+    return seq
+
+
+def check_grid(text, W, per, conchars, shape, closing):
+    """parse the written text on the reference grid -> problem text or None"""
+    lines = split_lines(text)
+    got = []
+    for k, ln in enumerate(lines):
+        head, slots, problem = parse_fixed(ln, W, k == 0)
+        if problem:
+            return f"line {k + 1}: {problem}"
+        if k > 0:
+            if not head or head[0] not in conchars:
+                return f"line {k + 1} starts with {head[:1]!r}, which the generic reader does not accept as a continuation of a {W}-wide card"
+        if len(slots) > per:
+            return f"line {k + 1} holds {len(slots)} fields"
+        if k < len(lines) - 1 or slots:
+            got.extend(slots + ["blank"] * (per - len(slots)))
+    want = expected_slots(shape)
+    if trim(got, "blank") != trim(want, "blank"):
+        i = next((j for j, (a, b) in enumerate(zip(got + ["-"] * len(want), want + ["-"] * len(got))) if a != b), None)
+        return f"field {i + 1 if i is not None else '?'} of {len(shape)} is not in line {1 + (i or 0) // per}, position {1 + (i or 0) % per} of the grid"
+    nl = -(-max(len(shape), 1) // per)
+    if closing and (len(lines) % 2 != 0):
+        return f"{len(lines)} physical lines: large-field cards are written in pairs of lines"
+    if len(lines) not in (nl, nl + 1):
+        return f"{len(lines)} physical lines for {len(shape)} fields"
+    return None
+
+
+# ---------------------------------------------------------------------- readers
+def run_reader(ctx, q, lines, n, conchar, fixed=True):
+    """evaluate _rdfixed / _rdcomma on abstract lines -> list of values read"""
+    fn = ctx.src.func(BULK, q)
+    params = [a.arg for a in fn.args.args]
+    want = ["fiter", "s", "n", "conchar", "blank", "tolist", "keep_name"] if fixed else ["fiter", "s", "conchar", "blank", "tolist", "keep_name"]
+    if len(params) != len(want):
+        raise AnchorError(f"{q}: signature {params}")
+    vals = [Opaque("iterator", ()), lines[0]] + ([Fraction(n)] if fixed else []) + [Lit(conchar), BLANK, Const(True), Const(False)]
+    env = dict(zip(params, vals))
+    env["<next>"] = Fraction(1)
+    it = params[0]
+
+    def call(name, args, kw, node, st, eng):
+        if name == it + ".send" or (name == "next" and args and args[0] == env[it]):
+            k = as_int(st.env["<next>"])
+            st.env["<next>"] = Fraction(k + 1)
+            return lines[k] if k < len(lines) else Const(None)
+        if name == "_proc_line" and len(args) == 1:
+            # comment stripping: the written card holds no '$' (fields are numbers, names, blanks) -> what is left is the right strip
+            return _text_post(Strip(args[0], None, "r"), st, eng) if is_str(args[0]) else Unk("_proc_line")
+        if name == "nas_sscanf" and args:
+            x = args[0]
+            if isinstance(x, Opaque) and x.name in ("part", "parts"):
+                return Opaque("misread", (x,))
+            if not is_str(x):
+                return Unk("nas_sscanf of " + type(x).__name__)
+            b = all_blank(x)
+            if b is True:
+                return Const(None)
+            at = atoms(x)
+            fs = [field_of(a) for a, _ in (at or []) if field_of(a) is not None]
+            if at is not None and len(fs) == 1 and all(isinstance(a, Lit) and a.s.strip(BLANKS) == "" for a, _ in at if field_of(a) is None):
+                return fs[0]
+            if at is not None and not fs and b is False:
+                return Lit("".join(a.s for a, _ in at).strip())
+            return Opaque("misread", (x,))
+        if isinstance(node.func, ast.Attribute) and node.func.attr == "split" and len(args) == 1 and args[0] == Lit(","):
+            recv = eng.ev(node.func.value, st)
+            if is_str(recv) and atoms(recv) is not None:
+                return split_commas(recv)
+        if isinstance(node.func, ast.Attribute) and node.func.attr in ("find", "index") and len(args) == 1 and isinstance(args[0], Lit):
+            recv = eng.ev(node.func.value, st)
+            if is_str(recv) and not isinstance(recv, Lit) and atoms(recv) is not None and len(args[0].s) == 1:
+                # position of a character in card text: only literal pieces can hold it (fields are numbers / names)
+                pos = 0
+                for a, w in atoms(recv):
+                    if isinstance(a, Lit) and args[0].s in a.s:
+                        return Fraction(pos + a.s.index(args[0].s))
+                    pos += w
+                return Fraction(-1) if node.func.attr == "find" else Unk("index: not found")
+        return NotImplemented
+
+    def cond(test, st, eng):
+        r = _field_cond(test, st, eng)
+        if r is not None:
+            return r
+        if isinstance(test, ast.Compare) and len(test.ops) == 1 and isinstance(test.ops[0], (ast.In, ast.NotIn)):
+            a, b = eng.ev(test.left, st), eng.ev(test.comparators[0], st)
+            if isinstance(a, Lit) and isinstance(b, Lit):
+                return (a.s in b.s) == isinstance(test.ops[0], ast.In)
+        return None
+
+    def post(v, st, eng):
+        v = _text_post(v, st, eng)
+        if isinstance(v, Slice) and v.lo is None and as_int(v.hi) == 1 and is_str(v.s):
+            c = first_char(v.s)
+            if c is not None:
+                return Lit(c)
+        return v
+
+    eng = Engine(ctx, BULK, fn, cond=cond, call=call, env=env, post=post)
+    leaves = eng.run()
+    rets = [lf for lf in leaves if lf.kind == "return"]
+    if len(rets) != 1 or len(leaves) != 1 or rets[0].state.facts:
+        raise Unsupported(f"{q}: {len(leaves)} paths for one card (undecided: {[f[0] for lf in leaves for f in lf.state.facts][:3]})")
+    v = rets[0].value
+    if not isinstance(v, Tup):
+        raise Unsupported(f"{q}: returns {type(v).__name__}")
+    consumed = as_int(rets[0].state.env["<next>"]) - 1
+    return list(v.items), consumed
+
+
+def comma_lines(name, shape, lead=","):
+    out = []
+    for k in range(0, max(len(shape), 1), 8):
+        parts = [Lit(name if k == 0 else lead.rstrip(","))]
+        for i in range(k, min(k + 8, len(shape))):
+            parts.append(Lit(","))
+            if shape[i] != "blank":
+                parts.append(StrOf(FIELD(i, shape[i])))
+        out.append(cat(*parts))
+    return out
+
+
+def shapes(per):
+    """card shapes around the line breaks: (description, [field types])"""
+    def mixed(n):
+        # left-justified strings never end a line here: how many blanks trail them is not known, so the stripped line length would not be
+        kinds = ["int", "float", "str", "blank", "str"]
+        out = [kinds[i % len(kinds)] for i in range(n)]
+        for i in range(n):
+            if (i % per == per - 1 or i == n - 1) and out[i] in ("str", "blank"):
+                out[i] = "int" if i % 2 else "float"
+        return out
+    out = []
+    for n in (1, per - 1, per, per + 1, 2 * per, 2 * per + 1, 3 * per + 2):
+        out.append((f"{n} integer fields", ["int"] * n))
+    for n in (per, 2 * per + 1):
+        out.append((f"{n} real fields", ["float"] * n))
+        out.append((f"{n} fields of mixed types", mixed(n)))
+    out.append((f"{3 * per} fields, the second line blank", ["int"] * per + ["blank"] * per + ["float"] * per))
+    out.append((f"{3 * per + 1} fields, two blank lines", ["int"] * (per - 1) + ["blank"] * (2 * per + 1) + ["int"]))
+    out.append((f"{2 * per} fields, blank run across the line break", ["int"] * (per - 2) + ["blank"] * 4 + ["float"] * (per - 2)))
+    out.append((f"{per + 3} fields, blank first line", ["blank"] * per + ["int"] * 3))
+    return out
+
+
+def rdcards_dispatch(ctx):
+    """(field width, continuation characters) the generic reader hands to _rdfixed with / without a '*' in the name field, and the
+    continuation characters of the comma reader: read from the values of the calls in rdcards"""
+    fn = ctx.src.func(BULK, "rdcards")
+    loops = [n for n in ast.walk(fn) if isinstance(n, ast.While) and any(isinstance(c, ast.Call) and dotted(c.func) == "_rdfixed" for c in ast.walk(n))]
+    if len(loops) != 1:
+        raise AnchorError("rdcards: the card loop calling _rdfixed")
+    line = None
+    eng = Engine(ctx, BULK, fn, env={}, lenient=True)
+    st = eng.start_state()
+    try:
+        res = eng.block(loops[0].body, st)
+    except Unsupported as e:
+        raise Unsupported(f"rdcards card loop: {e}")
+    found = {}
+    comma = set()
+    for s2, out, pay in res:
+        star = None
+        for f in s2.facts:
+            vals = f[3] if len(f) > 3 else None
+            if not vals:
+                continue
+            op, a, b = vals
+            pol = _star_test(op, a, b)
+            if pol is not None:
+                star = (f[1] == pol)
+        for nm, args, kw, node in s2.effects:
+            if nm == "_rdfixed" and args and len(args) >= 4 and star is not None:
+                found.setdefault(star, set()).add((args[2], args[3]))
+            if nm == "_rdcomma" and args and len(args) >= 3:
+                comma.add(args[2])
+    return found, comma, loops[0]
+
+
+def _star_test(op, a, b):
+    """is the recorded comparison 'the first 8 columns contain a *' -> polarity (True: the test is true when there is one)"""
+    def in_head(v):
+        for n in walk_value(v):
+            if isinstance(n, Slice) and n.lo is None and as_int(n.hi) == 8:
+                return True
+        return False
+    if isinstance(op, (ast.In, ast.NotIn)) and a == Lit("*") and in_head(b):
+        return isinstance(op, ast.In)
+    if isinstance(a, Opaque) and a.name in (".find", ".index") and len(a.args) == 2 and a.args[1] == Lit("*") and in_head(a.args[0]) and is_num(b):
+        if (isinstance(op, ast.Gt) and b == -1) or (isinstance(op, ast.GtE) and b == 0) or (isinstance(op, ast.NotEq) and b == -1):
+            return True
+        if (isinstance(op, ast.LtE) and b == -1) or (isinstance(op, ast.Lt) and b == 0) or (isinstance(op, ast.Eq) and b == -1):
+            return False
+    return None
+
+
+WRITERS = (("wtcard8", None, "GRID", 8, 8, False), ("_wtcard16", "format_float16", "GRID*", 16, 4, True),
+           ("_wtcard16", "format_double16", "DMIG*", 16, 4, True))
 
 
 def r3_card_grid(ctx):
-    """the writers' card grid is the grid the generic reader slices; the fixed-field and comma readers are siblings"""
-    fx = ctx.src.func(BULK, "_rdfixed")
-    cm = ctx.src.func(BULK, "_rdcomma")
+    ctx.assume("C12-R3: a field value fits the column it is written into (integers of at most W digits, strings of at most W characters); "
+               "names and string fields hold no '$', ',' or '*'")
+    # ---- what the generic reader expects
+    found, comma, loop = rdcards_dispatch(ctx)
+    conch = {}
+    for star, W in ((True, 16), (False, 8)):
+        got = found.get(star, set())
+        ok = len(got) == 1 and next(iter(got))[0] == Fraction(W) and isinstance(next(iter(got))[1], Lit)
+        ctx.check(ok, f"rdcards: a card {'with' if star else 'without'} '*' in its name field is read with {W}-wide fields", loop,
+                  None if ok else [(str(a), str(b)) for a, b in got])
+        conch[W] = next(iter(got))[1].s if ok else ""
+    ok = "*" in conch[16] and "+" in conch[8] and " " in conch[8]
+    ctx.check(ok, "rdcards: '*' continues a large-field card, blank or '+' a small-field card", loop, conch)
+    ok = len(comma) == 1 and isinstance(next(iter(comma)), Lit) and set(" +,") <= set(next(iter(comma)).s)
+    ctx.check(ok, "rdcards: the comma reader accepts blank, '+' and ',' continuations", loop, [str(c) for c in comma])
+    cch = next(iter(comma)).s if ok else " +,"
+    # wtcard16 / wtcard16d hand their formatter to the shared writer
+    for q, fmt in (("wtcard16", "format_float16"), ("wtcard16d", "format_double16")):
+        fn = ctx.src.func(BULK, q)
+        eng = Engine(ctx, BULK, fn)
+        lv = eng.run()
+        calls = [(nm, args) for lf in lv for nm, args, kw, node in lf.state.effects if nm == "_wtcard16"]
+        ps = [a.arg for a in fn.args.args]
+        ok = len(lv) == 1 and len(calls) == 1 and calls[0][1] is not None and len(calls[0][1]) == 3 and list(calls[0][1][:2]) == [Param(p) for p in ps[:2]] \
+            and calls[0][1][2] == Opaque("name:" + fmt, ())
+        ctx.check(ok, f"{q}: writes through _wtcard16 with {fmt}", fn)
+    # ---- writers on the reference grid, readers on the written text
+    for q, fmt, name, W, per, closing in WRITERS:
+        wfn = ctx.src.func(BULK, q)
+        tag = q + (f"[{fmt}]" if fmt else "")
+        for desc, shape in shapes(per):
+            try:
+                text = run_writer(ctx, q, name, shape, fmt)
+            except Unsupported as e:
+                ctx.error(f"{tag}: card of {desc}: the writer is not modelled", wfn, str(e))
+                continue
+            problem = check_grid(text, W, per, conch[W], shape, closing)
+            ctx.check(problem is None, f"{tag}: card of {desc}: name in 8 columns, every field in its own {W}-wide slot, {per} per line, "
+                                       f"continuation lines headed by 8 columns starting with a character the reader accepts", wfn, problem)
+            if problem is not None:
+                continue
+            rfn = ctx.src.func(BULK, "_rdfixed")
+            lines = split_lines(text)
+            want = trim([BLANK if s == "blank" else s for s in expected_slots(shape)], BLANK)
+            try:
+                got, used = run_reader(ctx, "_rdfixed", lines, W, conch[W], True)
+            except Unsupported as e:
+                ctx.error(f"_rdfixed on the {tag} card of {desc}: the reader is not modelled", rfn, str(e))
+                continue
+            ok = trim(got, BLANK) == want
+            ctx.check(ok, f"_rdfixed reads the {tag} card of {desc} back field for field ({len(lines)} lines)", rfn,
+                      None if ok else _diff(got, want, used, len(lines)))
+            if fmt == "format_double16":
+                continue
+            cfn = ctx.src.func(BULK, "_rdcomma")
+            for lead in (",", "+,"):
+                cl = comma_lines(name.rstrip("*"), shape, lead)
+                try:
+                    gotc, usedc = run_reader(ctx, "_rdcomma", cl, None, cch, False)
+                except Unsupported as e:
+                    ctx.error(f"_rdcomma on the comma form ({lead!r} continuations) of the card of {desc}: the reader is not modelled", cfn, str(e))
+                    continue
+                ok = trim(gotc, BLANK) == want
+                ctx.check(ok, f"_rdcomma reads the comma form ({lead!r} continuations) of the {W}-wide card of {desc} like the fixed form", cfn,
+                          None if ok else _diff(gotc, want, usedc, len(cl)))
 
-    def loop_exits(fn):
-        loops = [n for n in fn.body if isinstance(n, ast.While)]
-        if len(loops) != 1:
-            raise AnchorError(f"{fn.name}: continuation loop")
-        exits = []
-        for n in ast.walk(loops[0]):
-            if isinstance(n, (ast.Break, ast.Return)):
-                p_ = parent(n)
-                exits.append(utext(p_.test) if isinstance(p_, ast.If) else "unconditional")
-        return loops[0], exits
 
-    lf, ef = loop_exits(fx)
-    lc, ec = loop_exits(cm)
-    want = "sisNoneorlen(s)==0orconchar.find(s[0])<0"
-    ok = ef == [want]
-    ctx.check(ok, "_rdfixed: a card ends only when the next line is missing, empty or does not start with a continuation character - "
-                  "a continuation line whose fields are all blank does not end the card", lf,
-              None if ok else {"exits": ef, "consequence": "fields after a whole blank continuation line are lost, while the comma form of the same card reads fully"})
-    ok = ec == [want]
-    ctx.check(ok, "_rdcomma: the same single exit condition (fixed-field and free-field forms of a card read identically)", lc, None if ok else ec)
-    for fn, lp in ((fx, lf), (cm, lc)):
-        t = utext(lp)
-        ok = "foriinrange(i,nfields):vals.append(blank)" in t.replace("\n", "") and "i=nfields" in t and "nfields+=inc" in t
-        ctx.check(ok, f"{fn.name}: every line is padded with blanks up to a whole number of fields and the field count advances by `inc` per line", lp)
-    t = utext(fx)
-    ok = "ifn>8:inc=4else:inc=8" in t.replace("\n", "") and "maxstart=72-n" in t and "j=8" in t and "j+=n" in t and "whilej<=maxstartandlength>j:" in t \
-        and "v=nas_sscanf(s[j:j+n],tolist)" in t
-    ctx.check(ok, "_rdfixed: fields start at column 8, are n wide, the last one starts at 72 - n, 8 (small) or 4 (large) fields per line", fx)
-    ok = "s=_proc_line(s[:72])" in t
-    ctx.check(ok, "_rdfixed: only the first 72 columns of a line are data", fx)
-    t = utext(cm)
-    ok = "inc=8" in t and "lentok=min(len(tok),9)" in t and "start_field=1" in t
-    ctx.check(ok, "_rdcomma: 8 data fields per line after the name / continuation field", cm)
-    # writers
-    w8 = ctx.src.func(BULK, "wtcard8")
-    t = utext(w8)
-    ok = "ifi>0andi%8==0:f.write('\\n+')" in t.replace("\n", "").replace("+       ", "+").replace("'\\n+'", "'\\n+'") or "ifi>0andi%8==0:" in t
-    heads = [n.value for n in ast.walk(w8) if isinstance(n, ast.Constant) and isinstance(n.value, str) and n.value.startswith("\n")]
-    ok = ok and any(h == "\n+       " for h in heads)
-    ctx.check(ok, "wtcard8: a continuation (8-column head starting with '+') is inserted after every 8 fields", w8, heads)
-    ok = "f.write(''*8)" in t and "f'{field:<8s}'" in t and "f'{field:8d}'" in t and "format_float8(field)" in t
-    ctx.check(ok, "wtcard8: blank, string, integer and real fields are all 8 columns wide", w8)
-    w16 = ctx.src.func(BULK, "_wtcard16")
-    t = utext(w16)
-    heads = [n.value for n in ast.walk(w16) if isinstance(n, ast.Constant) and isinstance(n.value, str) and "\n" in n.value and len(n.value) > 1]
-    ok = "ifi>0andi%8==0:" in t and "elifi>0andi%4==0:" in t and "*\n*       " in heads and "\n*       " in heads
-    ctx.check(ok, "_wtcard16: 4 fields of 16 per line; continuation heads are 8 columns starting with '*'", w16, heads)
-    ok = "f.write(''*16)" in t and "f'{field:<16s}'" in t and "f'{field:16d}'" in t and "float_formatter(field)" in t
-    ctx.check(ok, "_wtcard16: blank, string, integer and real fields are all 16 columns wide", w16)
-    ok = "ifn_lines%2!=0:f.write('\\n*')" in t.replace("\n", "") or ("n_lines%2!=0" in t and "'\\n*'" in t)
-    ctx.check(ok, "_wtcard16: large-field cards are closed to an even number of lines", w16, nontrivial=False)
-    # the continuation characters the reader accepts include the ones the writers emit
-    rc = ctx.src.func(BULK, "rdcards")
-    t = utext(rc)
-    sel = [n for n in ast.walk(rc) if isinstance(n, ast.Assign) and utext(n.targets[0]) in ("field,continuation", "(field,continuation)")]
-    ok = len(sel) == 1 and utext(sel[0].value) in ("(16,'*')ifp>-1else(8,'+')", "(16,'*')ifp>-1else(8,' +')".replace(" ", ""))
-    ok = ok and "p=s[:8].find('*')" in t
-    ctx.check(ok, "rdcards: a card whose name field contains '*' is read with 16-wide fields and '*' continuations, otherwise 8-wide fields and "
-                  "blank/'+' continuations - the heads written by _wtcard16 and wtcard8", sel[0] if sel else rc, utext(sel[0].value) if sel else None)
-    ok = "_rdfixed(fiter,s,field,continuation,blank,tolist,keep_name)" in t and "_rdcomma(fiter,s,'+,',blank,tolist,keep_name)" in t
-    ctx.check(ok, "rdcards: the fixed reader receives that width and continuation set; the comma reader accepts blank, '+' and ',' continuations", rc)
-
-
+def _diff(got, want, used, nlines):
+    def t(v):
+        if is_field(v):
+            return f"field{as_int(v.args[0]) + 1}"
+        if v == BLANK:
+            return "blank"
+        return type(v).__name__ if not isinstance(v, (Lit, Opaque)) else (v.s if isinstance(v, Lit) else v.name)
+    g, w = trim(got, BLANK), want
+    i = next((j for j in range(max(len(g), len(w))) if j >= len(g) or j >= len(w) or g[j] != w[j]), None)
+    return {"lines consumed": f"{used} of {nlines}", "fields read": len(g), "fields written": len(w),
+            "first difference at field": None if i is None else i + 1,
+            "read": [t(x) for x in g[max(0, (i or 0) - 2):(i or 0) + 3]], "written": [t(x) for x in w[max(0, (i or 0) - 2):(i or 0) + 3]]}
